@@ -394,6 +394,15 @@ func runLimit(o *c.Out, k LimitCase) {
 	}
 }
 
+func countSpillJudged(o *c.Out, before, beforeCarry int) {
+	if spillJudged > before {
+		o.Count("monitor:case-with-requests-judged-under-spill-over")
+	}
+	if spillJudgedCarry > beforeCarry {
+		o.Count("monitor:case-with-requests-judged-against-a-nonzero-carried-over-budget")
+	}
+}
+
 func countObs(xs []int, f func(int) bool) (n int) {
 	for _, x := range xs {
 		if f(x) {
@@ -433,6 +442,7 @@ func runHist(o *c.Out, k HistCase) {
 		o.Count("hist:with-rollover")
 	}
 	o.MonitorChecked(1)
+	defer countSpillJudged(o, spillJudged, spillJudgedCarry)
 	for _, h := range monitorHist(&k) {
 		h.Suite, h.Index = "hist", idx
 		o.Hit(h)
@@ -449,6 +459,7 @@ func runPlugin(o *c.Out, k PluginCase) {
 		o.Count("plugin:with-rejection")
 	}
 	o.MonitorChecked(1)
+	defer countSpillJudged(o, spillJudged, spillJudgedCarry)
 	for _, h := range monitorPlugin(&k) {
 		h.Suite, h.Index = "plugin", idx
 		o.Hit(h)
@@ -999,6 +1010,7 @@ func main() {
 	for i := 0; i < o.Scale(500, 6000, 8000); i++ {
 		runPlugin(o, genPluginCase(rp))
 	}
+	genReload(o)
 	genOverlap(o)
 	stress(o)
 	freshRace(o)
